@@ -150,6 +150,21 @@ SCENARIOS = {
     '3c-after-be': dict(n=3, exporters={0: 'org.ex.A', 2: 'org.ex.C'},
                         be_peer=True,
                         calls=[(1, 0, 'echo'), (1, 2, 'add'), (2, 0, 'swap')]),
+    # a long-lived process: the first call is outstanding (its method holds
+    # a Deferred) while gap-1 further messages are built, then the second
+    # call is made
+    '2c-long-65534': dict(n=2, exporters={0: 'org.ex.A'}, gap=65534,
+                          calls=[(1, 0, 'slow'), (1, 0, 'echo')]),
+    '2c-long-65535': dict(n=2, exporters={0: 'org.ex.A'}, gap=65535,
+                          calls=[(1, 0, 'slow'), (1, 0, 'echo')]),
+    '2c-long-65536': dict(n=2, exporters={0: 'org.ex.A'}, gap=65536,
+                          calls=[(1, 0, 'slow'), (1, 0, 'echo')]),
+    '2c-long-65537': dict(n=2, exporters={0: 'org.ex.A'}, gap=65537,
+                          calls=[(1, 0, 'slow'), (1, 0, 'echo')]),
+    '2c-long-256': dict(n=2, exporters={0: 'org.ex.A'}, gap=256,
+                        calls=[(1, 0, 'slow'), (1, 0, 'echo')]),
+    '2c-long-255': dict(n=2, exporters={0: 'org.ex.A'}, gap=255,
+                        calls=[(1, 0, 'slow'), (1, 0, 'echo')]),
     '4c': dict(n=4, exporters={0: 'org.ex.A', 3: 'org.ex.D'},
                calls=[(1, 0, 'echo'), (2, 3, 'echo2'), (1, 3, 'add')]),
 }
@@ -371,6 +386,9 @@ def make_runner(params):
                                  'proxy.callRemote(%r, %r) (%s proxy) raised '
                                  '%r' % (method, args, mode, e)))
                     return [], [], viol, {'params': params}
+                if ci == 0 and sc.get('gap'):
+                    from mcx import scale
+                    scale.build_messages(sc['gap'] - 1)
                 d.addCallbacks(
                     lambda v, sink=sink: sink.append(('ok', v)),
                     lambda f, sink=sink: sink.append(
@@ -520,7 +538,9 @@ def run(ctx):
     ctx.assumptions = [
         'each transport write is delivered as one read unless cut or joined '
         'with a prefix of the next write (one deviation each)',
-        'all parties share one process, hence one message-serial counter']
+        'all parties share one process, hence one message-serial counter '
+        '(the 2c-long-<gap> scenarios build gap-1 messages between the '
+        'first, held, call and the second)']
     if ctx.quick:
         plan = [('2c-2calls', 'explicit', 1), ('2c-2calls', 'introspect', 1),
                 ('2c-slow', 'explicit', 1), ('2c-fail', 'introspect', 1),
@@ -531,6 +551,8 @@ def run(ctx):
                 ('3c-2exporters', 'introspect', 1)]
         plan += [('2c-2calls', m, 0) for m in NAME_MODES]
         plan += [('2c-after-be', 'explicit', 1), ('3c-after-be', 'introspect', 0)]
+        plan += [('2c-long-%d' % g, 'explicit', 0)
+                 for g in (255, 256, 65535, 65536)]
         limit = 5000
     else:
         plan = [('2c-2calls', 'explicit', 2), ('2c-2calls', 'introspect', 1),
@@ -547,6 +569,8 @@ def run(ctx):
         plan += [('2c-fail', m, 1) for m in NAME_MODES[:4]]
         plan += [('2c-after-be', 'explicit', 1), ('2c-after-be', 'introspect', 1),
                  ('3c-after-be', 'introspect', 1)]
+        plan += [('2c-long-%d' % g, 'explicit', 0)
+                 for g in (255, 256, 65534, 65535, 65536, 65537)]
         limit = 60000
     for scn, mode, dev in plan:
         dfs.explore(ctx, make_runner,
